@@ -643,6 +643,31 @@ def sort(x, axis=-1, out=None, out_like=None, sizing='optimal', method='raw', **
     kwargs['axis'] = axis
     return _function_over_one_var(repr_func=np.sort, raw_func=_sort_raw, x=x, out=out, out_like=out_like, sizing=sizing, method=method, **kwargs)
 
+@implements(np.invert)
+def invert(x, **kwargs):
+    """
+    """
+    return ~x
+
+@implements(np.bitwise_and)
+def bitwise_and(x, y, **kwargs):
+    """
+    """
+    # (also reached by the operator when NumPy dispatches it: a NumPy integer on the left of `&`)
+    return x & y if isinstance(x, Fxp) else y & x
+
+@implements(np.bitwise_or)
+def bitwise_or(x, y, **kwargs):
+    """
+    """
+    return x | y if isinstance(x, Fxp) else y | x
+
+@implements(np.bitwise_xor)
+def bitwise_xor(x, y, **kwargs):
+    """
+    """
+    return x ^ y if isinstance(x, Fxp) else y ^ x
+
 @implements(np.conjugate, np.conj)
 def conjugate(x, out=None, out_like=None, sizing='optimal', method='raw', **kwargs):
     """
